@@ -35,6 +35,7 @@ CHECKS = {
     "C19": ("p_capacity", "c19"),
     "C16": ("p_bounds", "c16"),
     "C20": ("p_models", "c20"),
+    "controls": ("controls", "run"),
 }
 
 
